@@ -1051,4 +1051,670 @@ example : (printStringFormattingChars ['\\', ' ', ' ', ' ', '\\'] 0 (.str ['h', 
 example : (printValueWithFormatString ['#', '#', '.', '#', '#'] 0 (.single ⟨false, 3147, 3⟩)).toOption
     = some ([' ', '3', '.', '1', '5'], 5) := by decide
 
+/-! ## Statements on one device: USING included, and the statement-level projection -/
+
+/-- The format string a statement really uses (`PrintSetFormatStringFromA` keeps only string values). -/
+def fmtOf (s : Stmt) : Option (List Char) :=
+  match s.format with
+  | some (.str f) => some f
+  | _ => none
+
+/-- What the items of a statement do to its device and to the format cursor (`fmt = none`: no USING). -/
+def itemsOn (fmt : Option (List Char)) : WritePrinter → Nat → List Arg → Except Err (WritePrinter × Nat)
+  | p, i, [] => .ok (p, i)
+  | p, i, .expr v :: r =>
+    match fmt with
+    | none => itemsOn fmt (p.print (valueText v)) i r
+    | some f =>
+      match printValueWithFormatString f i v with
+      | .error e => .error e
+      | .ok (t, i') => itemsOn fmt (p.print t) i' r
+  | p, i, .comma :: r => itemsOn fmt p.moveToNextPrintZone i r
+  | p, i, .semicolon :: r => itemsOn fmt p i r
+
+/-- The end of a statement: with USING the literal text up to the next field is written; then CR LF unless the
+item list ended in a separator. -/
+def finishOn (fmt : Option (List Char)) (p : WritePrinter) (i : Nat) (sep : Bool) : WritePrinter :=
+  let q := match fmt with
+    | none => p
+    | some f => p.print (printRemainingNonFormattingChars f i).1
+  if sep then q else q.println
+
+/-- **The meaning of one PRINT statement on its device** (a function of the device's contents alone). -/
+def stmtOn (s : Stmt) (p : WritePrinter) : Except Err WritePrinter :=
+  match itemsOn (fmtOf s) p 0 s.args with
+  | .error e => .error e
+  | .ok (p', i) => .ok (finishOn (fmtOf s) p' i (endsInSep s.args))
+
+theorem itemsOn_none (p : WritePrinter) (i : Nat) (args : List Arg) :
+    itemsOn none p i args = .ok (plainArgs p args, i) := by
+  induction args generalizing p with
+  | nil => rfl
+  | cons a r ih => cases a <;> simp [itemsOn, plainArgs, ih]
+
+/-- Without USING `stmtOn` is the layout of `line_end_rule`. -/
+theorem stmtOn_plain (s : Stmt) (p : WritePrinter) (h : fmtOf s = none) :
+    stmtOn s p = .ok (if endsInSep s.args then plainArgs p s.args else (plainArgs p s.args).println) := by
+  simp [stmtOn, h, itemsOn_none, finishOn]
+
+theorem run_error_append (st : St) (a b : List Instr) (e : Err) (h : run st a = .error e) :
+    run st (a ++ b) = .error e := by
+  rw [run_append, h]
+
+/-- The prologue of any lowered statement: device selected, format installed, cursor 0, flag kept. -/
+theorem run_prologue_fmt (st : St) (s : Stmt) :
+    ∃ ps', run st (lowerTarget s.target ++ [.setFormatStringFromA (s.format.getD (.int 0))])
+        = .ok { st with ps := ps' }
+      ∧ ps'.target = s.target ∧ ps'.formatString = fmtOf s ∧ ps'.formatIndex = 0
+      ∧ ps'.skipNewLine = st.ps.skipNewLine := by
+  obtain ⟨d, f, args⟩ := s
+  cases d <;> cases f with
+    | none => exact ⟨_, rfl, rfl, rfl, rfl, rfl⟩
+    | some v => cases v <;> exact ⟨_, rfl, rfl, rfl, rfl, rfl⟩
+
+/-- Running the lowered items on an open device follows `itemsOn` (error or success). -/
+theorem run_items (st : St) (args : List Arg) (p : WritePrinter) (fmt : Option (List Char)) (i : Nat)
+    (hfmt : st.ps.formatString = fmt) (hidx : st.ps.formatIndex = i)
+    (hdev : st.dev st.ps.target = some p) :
+    match itemsOn fmt p i args with
+    | .error e => run st (args.map lowerArg) = .error e
+    | .ok (p', i') =>
+      ∃ st', run st (args.map lowerArg) = .ok st'
+        ∧ st'.ps = { st.ps with skipNewLine := flagAfter st.ps.skipNewLine args, formatIndex := i' }
+        ∧ st'.dev st.ps.target = some p'
+        ∧ ∀ d, d ≠ st.ps.target → st'.dev d = st.dev d := by
+  induction args generalizing st p i with
+  | nil =>
+    subst hidx
+    exact ⟨st, rfl, by cases st; rfl, hdev, fun _ _ => rfl⟩
+  | cons a r ih =>
+    cases a with
+    | expr v =>
+      cases fmt with
+      | none =>
+        have hps : psStep st.ps (.valueFromA v)
+            = .ok ({ st.ps with skipNewLine := false }, some [.print (valueText v)]) := by
+          simp only [psStep, hfmt]
+        have hs := step_write st _ _ _ p hps rfl hdev
+        have h := ih ⟨{ st.ps with skipNewLine := false }, st.dev.set st.ps.target (p.print (valueText v))⟩
+          (p.print (valueText v)) i hfmt hidx (set_same _ _ _)
+        simp only [itemsOn]
+        cases hi : itemsOn none (p.print (valueText v)) i r with
+        | error e =>
+          rw [hi] at h
+          simp only [List.map_cons, lowerArg, run, hs]; exact h
+        | ok r' =>
+          obtain ⟨p', i'⟩ := r'
+          rw [hi] at h
+          obtain ⟨st', h1, h2, h3, h4⟩ := h
+          refine ⟨st', ?_, ?_, h3, ?_⟩
+          · simp only [List.map_cons, lowerArg, run, hs]; exact h1
+          · rw [h2]; rfl
+          · intro d hd; rw [h4 d hd]; exact set_other _ _ _ _ hd
+      | some f =>
+        simp only [itemsOn]
+        cases hv : printValueWithFormatString f i v with
+        | error e =>
+          have : step st (.valueFromA v) = .error e := by
+            simp [step, psStep, hfmt, hidx, hv]
+          simp only [List.map_cons, lowerArg, run, this]
+        | ok tv =>
+          obtain ⟨t, i1⟩ := tv
+          have hps : psStep st.ps (.valueFromA v)
+              = .ok ({ st.ps with skipNewLine := false, formatIndex := i1 }, some [.print t]) := by
+            simp only [psStep, hfmt, hidx, hv]
+          have hs := step_write st _ _ _ p hps rfl hdev
+          have h := ih ⟨{ st.ps with skipNewLine := false, formatIndex := i1 },
+            st.dev.set st.ps.target (p.print t)⟩ (p.print t) i1 hfmt rfl (set_same _ _ _)
+          dsimp only
+          cases hi : itemsOn (some f) (p.print t) i1 r with
+          | error e =>
+            rw [hi] at h
+            simp only [List.map_cons, lowerArg, run, hs]; exact h
+          | ok r' =>
+            obtain ⟨p', i'⟩ := r'
+            rw [hi] at h
+            obtain ⟨st', h1, h2, h3, h4⟩ := h
+            refine ⟨st', ?_, ?_, h3, ?_⟩
+            · simp only [List.map_cons, lowerArg, run, hs]; exact h1
+            · rw [h2]; rfl
+            · intro d hd; rw [h4 d hd]; exact set_other _ _ _ _ hd
+    | comma =>
+      have hs := comma_instr st p hdev
+      have h := ih ⟨{ st.ps with skipNewLine := true }, st.dev.set st.ps.target p.moveToNextPrintZone⟩
+        p.moveToNextPrintZone i hfmt hidx (set_same _ _ _)
+      simp only [itemsOn]
+      cases hi : itemsOn fmt p.moveToNextPrintZone i r with
+      | error e =>
+        rw [hi] at h
+        simp only [List.map_cons, lowerArg, run, hs]; exact h
+      | ok r' =>
+        obtain ⟨p', i'⟩ := r'
+        rw [hi] at h
+        obtain ⟨st', h1, h2, h3, h4⟩ := h
+        refine ⟨st', ?_, ?_, h3, ?_⟩
+        · simp only [List.map_cons, lowerArg, run, hs]; exact h1
+        · rw [h2]; rfl
+        · intro d hd; rw [h4 d hd]; exact set_other _ _ _ _ hd
+    | semicolon =>
+      have h := ih { st with ps := { st.ps with skipNewLine := true } } p i hfmt hidx hdev
+      simp only [itemsOn]
+      cases hi : itemsOn fmt p i r with
+      | error e =>
+        rw [hi] at h
+        simp only [List.map_cons, lowerArg, run, semicolon_writes_nothing]; exact h
+      | ok r' =>
+        obtain ⟨p', i'⟩ := r'
+        rw [hi] at h
+        obtain ⟨st', h1, h2, h3, h4⟩ := h
+        refine ⟨st', ?_, ?_, h3, h4⟩
+        · simp only [List.map_cons, lowerArg, run, semicolon_writes_nothing]; exact h1
+        · rw [h2]; rfl
+
+theorem lower_split (s : Stmt) :
+    lower s = (lowerTarget s.target ++ [.setFormatStringFromA (s.format.getD (.int 0))]) ++
+      (s.args.map lowerArg ++ [.printEnd]) := by
+  simp [lower]
+
+/-- **One statement, open device**: running the lowered statement from a statement boundary does to its device
+exactly what `stmtOn` says — it fails with the same error, or it succeeds, leaves every other device alone and
+ends at a statement boundary.  (With and without USING: the same `PrintEnd` path.) -/
+theorem run_stmt (st : St) (s : Stmt) (p : WritePrinter)
+    (hflag : st.ps.skipNewLine = false) (hdev : st.dev s.target = some p) :
+    match stmtOn s p with
+    | .error e => run st (lower s) = .error e
+    | .ok p' =>
+      ∃ st', run st (lower s) = .ok st'
+        ∧ st'.ps.skipNewLine = false
+        ∧ st'.dev s.target = some p'
+        ∧ ∀ d, d ≠ s.target → st'.dev d = st.dev d := by
+  obtain ⟨ps1, hpro, ht, hf, hi0, hsk⟩ := run_prologue_fmt st s
+  have hdev1 : ({ st with ps := ps1 } : St).dev ps1.target = some p := by rw [ht]; exact hdev
+  have hit := run_items { st with ps := ps1 } s.args p (fmtOf s) 0 hf hi0 hdev1
+  unfold stmtOn
+  rw [lower_split, run_append, hpro]
+  simp only
+  cases hi : itemsOn (fmtOf s) p 0 s.args with
+  | error e =>
+    rw [hi] at hit
+    simp only at hit ⊢
+    exact run_error_append _ _ _ _ hit
+  | ok r =>
+    obtain ⟨p2, i2⟩ := r
+    rw [hi] at hit
+    obtain ⟨st2, h1, h2, h3, h4⟩ := hit
+    simp only at h2 h3 h4 ⊢
+    rw [ht] at h3 h4
+    have hflag2 : st2.ps.skipNewLine = if s.args = [] then false else endsInSep s.args := by
+      rw [h2]; simp only; rw [flagAfter_eq, hsk, hflag]
+    have hfmt2 : st2.ps.formatString = fmtOf s := by rw [h2]; exact hf
+    have hidx2 : st2.ps.formatIndex = i2 := by rw [h2]
+    have ht2 : st2.ps.target = s.target := by rw [h2]; exact ht
+    have hnil : s.args = [] → endsInSep s.args = false := by intro h; rw [h]; rfl
+    rw [run_append, h1]
+    simp only [run]
+    have hskip : st2.ps.skipNewLine = endsInSep s.args := by
+      rw [hflag2]
+      by_cases hn : s.args = []
+      · rw [if_pos hn, hnil hn]
+      · simp [hn]
+    -- the final PrintEnd
+    have hend : ∃ ps3, step st2 .printEnd = .ok ⟨ps3,
+        st2.dev.set s.target (finishOn (fmtOf s) p2 i2 (endsInSep s.args))⟩ ∧ ps3.skipNewLine = false := by
+      cases hfo : fmtOf s with
+      | none =>
+        rw [hfo] at hfmt2
+        have hps : psStep st2.ps .printEnd = .ok ({ st2.ps with skipNewLine := false },
+            some (if st2.ps.skipNewLine then [] else [.println])) := by
+          simp [psStep, hfmt2]
+        refine ⟨{ st2.ps with skipNewLine := false }, ?_, rfl⟩
+        rw [step_write st2 .printEnd _ _ p2 hps rfl (by rw [ht2]; exact h3), ht2, hskip]
+        cases endsInSep s.args <;> simp [finishOn, WritePrinter.run, WritePrinter.apply]
+      | some f =>
+        rw [hfo] at hfmt2
+        have hps : psStep st2.ps .printEnd = .ok
+            ({ st2.ps with skipNewLine := false,
+                           formatIndex := (printRemainingNonFormattingChars f st2.ps.formatIndex).2 },
+            some ([.print (printRemainingNonFormattingChars f st2.ps.formatIndex).1]
+              ++ (if st2.ps.skipNewLine then [] else [.println]))) := by
+          simp [psStep, hfmt2]
+        refine ⟨{ st2.ps with skipNewLine := false, formatIndex := (printRemainingNonFormattingChars f st2.ps.formatIndex).2 }, ?_, rfl⟩
+        rw [step_write st2 .printEnd _ _ p2 hps rfl (by rw [ht2]; exact h3), ht2, hskip, hidx2]
+        cases endsInSep s.args <;> simp [finishOn, WritePrinter.run, WritePrinter.apply]
+    obtain ⟨ps3, hend, hps3⟩ := hend
+    rw [hend]
+    refine ⟨_, rfl, hps3, set_same _ _ _, ?_⟩
+    intro d hd
+    show (st2.dev.set s.target _) d = st.dev d
+    rw [set_other _ _ _ _ hd]
+    exact h4 d hd
+
+/-- **line_end_rule, with USING**: the items are rendered through the format (cyclically), the literal text up to
+the next field is appended, and then CR LF — unless the item list ends in a separator: then the line stays open
+and the column is where the trailing literal left it. -/
+theorem line_end_rule_using (st : St) (s : Stmt) (p p' : WritePrinter) (f : List Char) (i : Nat)
+    (hfmt : s.format = some (.str f)) (hflag : st.ps.skipNewLine = false)
+    (hdev : st.dev s.target = some p) (hitems : itemsOn (some f) p 0 s.args = .ok (p', i)) :
+    ∃ st', run st (lower s) = .ok st'
+      ∧ st'.ps.skipNewLine = false
+      ∧ st'.dev s.target = some
+          (let q := p'.print (printRemainingNonFormattingChars f i).1
+           if endsInSep s.args then q else q.println)
+      ∧ ∀ d, d ≠ s.target → st'.dev d = st.dev d := by
+  have hfo : fmtOf s = some f := by simp [fmtOf, hfmt]
+  have h := run_stmt st s p hflag hdev
+  simp only [stmtOn, hfo, hitems] at h
+  exact h
+
+/-- A failing item (bad format, type mismatch) makes the statement fail with that error. -/
+theorem using_error_propagates (st : St) (s : Stmt) (p : WritePrinter) (e : Err)
+    (hflag : st.ps.skipNewLine = false) (hdev : st.dev s.target = some p)
+    (hitems : itemsOn (fmtOf s) p 0 s.args = .error e) : run st (lower s) = .error e := by
+  have h := run_stmt st s p hflag hdev
+  simp only [stmtOn, hitems] at h
+  exact h
+
+/-- **The next PRINT continues at the same column** (any two statements, USING or not): after `s1` ending in a
+separator, `s2` acts on the device exactly as `s1` left it — no CR LF in between; what `s1` left is its items
+(and, with USING, the trailing literal). -/
+theorem print_continues_any (st : St) (s1 s2 : Stmt) (p p1 p2 : WritePrinter)
+    (hsame : s2.target = s1.target) (hflag : st.ps.skipNewLine = false) (hdev : st.dev s1.target = some p)
+    (h1 : stmtOn s1 p = .ok p1) (h2 : stmtOn s2 p1 = .ok p2) :
+    ∃ st', run st (lower s1 ++ lower s2) = .ok st' ∧ st'.dev s1.target = some p2
+      ∧ (endsInSep s1.args = true →
+          ∃ q i, itemsOn (fmtOf s1) p 0 s1.args = .ok (q, i) ∧ p1 = finishOn (fmtOf s1) q i true) := by
+  have ha := run_stmt st s1 p hflag hdev
+  rw [h1] at ha
+  obtain ⟨sa, ha1, ha2, ha3, _⟩ := ha
+  have hb := run_stmt sa s2 p1 ha2 (by rw [hsame]; exact ha3)
+  rw [h2] at hb
+  obtain ⟨sb, hb1, _, hb3, _⟩ := hb
+  refine ⟨sb, ?_, by rw [← hsame]; exact hb3, ?_⟩
+  · rw [run_append, ha1]; exact hb1
+  · intro hsep
+    unfold stmtOn at h1
+    cases hi : itemsOn (fmtOf s1) p 0 s1.args with
+    | error e => rw [hi] at h1; cases h1
+    | ok r =>
+      obtain ⟨q, i⟩ := r
+      rw [hi] at h1
+      simp only [Except.ok.injEq] at h1
+      exact ⟨q, i, rfl, by rw [← h1, hsep]⟩
+
+example : (stmtOn ⟨.screen, some (.str ['#', '#', ' ', 'x']), [.expr (.int 5), .semicolon]⟩ ⟨[], 0⟩).toOption
+    = some ⟨[' ', '5', ' ', 'x'], 4⟩ := by decide
+
+/-! ### Closed devices -/
+
+/-- Items and `PrintEnd` keep the selected device. -/
+theorem psStep_target (ps ps' : PrintState) (i : Instr) (o : Option (List Op))
+    (h : psStep ps i = .ok (ps', o))
+    (hi : i = .comma ∨ i = .semicolon ∨ i = .printEnd ∨ ∃ v, i = .valueFromA v) :
+    ps'.target = ps.target := by
+  rcases hi with rfl | rfl | rfl | ⟨v, rfl⟩
+  · simp only [psStep, Except.ok.injEq, Prod.mk.injEq] at h; rw [← h.1]; rfl
+  · simp only [psStep, Except.ok.injEq, Prod.mk.injEq] at h; rw [← h.1]; rfl
+  · simp only [psStep, Except.ok.injEq, Prod.mk.injEq] at h; rw [← h.1]; rfl
+  · simp only [psStep] at h
+    split at h
+    · simp only [Except.ok.injEq, Prod.mk.injEq] at h; rw [← h.1]; rfl
+    · split at h
+      · cases h
+      · simp only [Except.ok.injEq, Prod.mk.injEq] at h; rw [← h.1]; rfl
+
+/-- On a closed device every instruction that calls the printer fails. -/
+theorem step_closed (st : St) (i : Instr) (hdev : st.dev st.ps.target = none)
+    (hi : i = .comma ∨ i = .printEnd ∨ ∃ v, i = .valueFromA v) : ∃ e, step st i = .error e := by
+  unfold step
+  cases hp : psStep st.ps i with
+  | error e => exact ⟨e, rfl⟩
+  | ok r =>
+    obtain ⟨ps', o⟩ := r
+    have ht : ps'.target = st.ps.target :=
+      psStep_target _ _ _ _ hp (by rcases hi with h | h | h <;> simp [h])
+    cases o with
+    | none =>
+      rcases hi with rfl | rfl | ⟨v, rfl⟩
+      · simp [psStep] at hp
+      · simp [psStep] at hp
+      · simp only [psStep] at hp
+        split at hp
+        · simp at hp
+        · split at hp <;> simp at hp
+    | some ops =>
+      simp only [ht, hdev]
+      exact ⟨_, rfl⟩
+
+theorem run_items_closed (st : St) (args : List Arg) (hdev : st.dev st.ps.target = none) :
+    ∃ e, run st (args.map lowerArg ++ [.printEnd]) = .error e := by
+  induction args generalizing st with
+  | nil =>
+    obtain ⟨e, he⟩ := step_closed st .printEnd hdev (by simp)
+    exact ⟨e, by simp [run, he]⟩
+  | cons a r ih =>
+    cases a with
+    | expr v =>
+      obtain ⟨e, he⟩ := step_closed st (.valueFromA v) hdev (Or.inr (Or.inr ⟨v, rfl⟩))
+      exact ⟨e, by simp [run, lowerArg, he]⟩
+    | comma =>
+      obtain ⟨e, he⟩ := step_closed st .comma hdev (by simp)
+      exact ⟨e, by simp [run, lowerArg, he]⟩
+    | semicolon =>
+      obtain ⟨e, he⟩ := ih { st with ps := { st.ps with skipNewLine := true } } hdev
+      exact ⟨e, by simp only [List.map_cons, List.cons_append, lowerArg, run, semicolon_writes_nothing]; exact he⟩
+
+/-- A statement addressed to a device that is not open fails (nothing is written anywhere). -/
+theorem run_stmt_closed (st : St) (s : Stmt) (hdev : st.dev s.target = none) :
+    ∃ e, run st (lower s) = .error e := by
+  obtain ⟨ps1, hpro, ht, _, _, _⟩ := run_prologue_fmt st s
+  have hdev1 : ({ st with ps := ps1 } : St).dev ps1.target = none := by rw [ht]; exact hdev
+  obtain ⟨e, he⟩ := run_items_closed { st with ps := ps1 } s.args hdev1
+  exact ⟨e, by rw [lower_split, run_append, hpro]; exact he⟩
+
+/-! ### Programs: the statement-level projection -/
+
+/-- The statements of a program addressed to device `d`, applied to `d`'s contents, in order. -/
+def runOn (d : Device) (p : WritePrinter) : List Stmt → Except Err WritePrinter
+  | [] => .ok p
+  | s :: r =>
+    if s.target = d then
+      match stmtOn s p with
+      | .error e => .error e
+      | .ok p' => runOn d p' r
+    else runOn d p r
+
+theorem lowerProgram_cons (s : Stmt) (r : List Stmt) : lowerProgram (s :: r) = lower s ++ lowerProgram r := by
+  simp [lowerProgram]
+
+/-- A successful program run does to every open device what that device's own statements say. -/
+theorem program_on_device (st st' : St) (prog : List Stmt) (hflag : st.ps.skipNewLine = false)
+    (h : run st (lowerProgram prog) = .ok st') (d : Device) (p : WritePrinter) (hp : st.dev d = some p) :
+    ∃ p', runOn d p prog = .ok p' ∧ st'.dev d = some p' := by
+  induction prog generalizing st p with
+  | nil =>
+    have : st' = st := by simp [lowerProgram, run] at h; exact h.symm
+    subst this
+    exact ⟨p, rfl, hp⟩
+  | cons s r ih =>
+    rw [lowerProgram_cons, run_append] at h
+    cases hdev : st.dev s.target with
+    | none =>
+      obtain ⟨e, he⟩ := run_stmt_closed st s hdev
+      rw [he] at h; cases h
+    | some ps =>
+      have hs := run_stmt st s ps hflag hdev
+      cases hso : stmtOn s ps with
+      | error e => rw [hso] at hs; simp only at hs; rw [hs] at h; cases h
+      | ok p1 =>
+        rw [hso] at hs
+        obtain ⟨st1, h1, h2, h3, h4⟩ := hs
+        rw [h1] at h
+        simp only at h
+        by_cases htd : s.target = d
+        · subst htd
+          have hpp : ps = p := by rw [hdev] at hp; exact Option.some.inj hp
+          subst hpp
+          obtain ⟨p', hr, hd⟩ := ih st1 h2 h p1 h3
+          exact ⟨p', by simp [runOn, hso, hr], hd⟩
+        · have hd1 : st1.dev d = some p := by rw [h4 d (fun e => htd e.symm)]; exact hp
+          obtain ⟨p', hr, hd⟩ := ih st1 h2 h p hd1
+          exact ⟨p', by simp [runOn, htd, hr], hd⟩
+
+/-- Running only `d`'s statements succeeds when `runOn` does, with that result on `d`. -/
+theorem run_filtered (st : St) (prog : List Stmt) (hflag : st.ps.skipNewLine = false)
+    (d : Device) (p p' : WritePrinter) (hp : st.dev d = some p) (hr : runOn d p prog = .ok p') :
+    ∃ st'', run st (lowerProgram (prog.filter (fun s => s.target = d))) = .ok st''
+      ∧ st''.dev d = some p' := by
+  induction prog generalizing st p with
+  | nil =>
+    simp only [runOn, Except.ok.injEq] at hr
+    subst hr
+    exact ⟨st, rfl, hp⟩
+  | cons s r ih =>
+    by_cases htd : s.target = d
+    · simp only [runOn, htd, if_true] at hr
+      cases hso : stmtOn s p with
+      | error e => rw [hso] at hr; cases hr
+      | ok p1 =>
+        rw [hso] at hr
+        simp only at hr
+        have hs := run_stmt st s p hflag (by rw [htd]; exact hp)
+        rw [hso] at hs
+        obtain ⟨st1, h1, h2, h3, _⟩ := hs
+        rw [htd] at h3
+        obtain ⟨st'', hrun, hd⟩ := ih st1 h2 p1 h3 hr
+        refine ⟨st'', ?_, hd⟩
+        simp only [List.filter_cons, htd, decide_true, if_true]
+        rw [lowerProgram_cons, run_append, h1]
+        exact hrun
+    · simp only [runOn, htd, if_false] at hr
+      obtain ⟨st'', hrun, hd⟩ := ih st hflag p hp hr
+      refine ⟨st'', ?_, hd⟩
+      simp only [List.filter_cons, htd, decide_false]
+      exact hrun
+
+/-- **Statement-level projection**: if a program — PRINT / LPRINT / PRINT #n statements, with or without USING,
+interleaved over any devices — runs to its end, then for every open device `d`, running only the statements
+addressed to `d` also succeeds and leaves on `d` exactly the same bytes and column. -/
+theorem statement_projection (st st' : St) (prog : List Stmt) (hflag : st.ps.skipNewLine = false)
+    (h : run st (lowerProgram prog) = .ok st') (d : Device) (p : WritePrinter) (hp : st.dev d = some p) :
+    ∃ st'', run st (lowerProgram (prog.filter (fun s => s.target = d))) = .ok st''
+      ∧ st''.dev d = st'.dev d := by
+  obtain ⟨p', hr, hd⟩ := program_on_device st st' prog hflag h d p hp
+  obtain ⟨st'', hrun, hd''⟩ := run_filtered st prog hflag d p p' hp hr
+  exact ⟨st'', hrun, by rw [hd, hd'']⟩
+
+example : (St.init [1]).ps.skipNewLine = false := rfl
+example : (runOn .lpt1 WritePrinter.new
+    [⟨.screen, none, [.expr (.int 1)]⟩, ⟨.lpt1, none, [.expr (.str ['a']), .comma]⟩,
+     ⟨.file 1, none, []⟩, ⟨.lpt1, some (.str ['#']), [.expr (.int 2)]⟩]).toOption
+    = some ⟨['a'] ++ List.replicate 13 ' ' ++ ['2', '\r', '\n'], 0⟩ := by decide
+
+/-! ## PRINT USING: rounding of the value to the field's fraction digits -/
+
+/-- `n / p` rounded to the nearest whole number, ties to the even one (Rust `{:.k}` on an exact value). -/
+def roundHalfEven (n p : Nat) : Nat :=
+  if 2 * (n % p) > p then n / p + 1
+  else if 2 * (n % p) < p then n / p
+  else if n / p % 2 = 0 then n / p else n / p + 1
+
+/-- `n / p` rounded to the nearest whole number, ties away from zero (`f.round()` on the magnitude). -/
+def roundHalfUp (n p : Nat) : Nat := if 2 * (n % p) ≥ p then n / p + 1 else n / p
+
+/-- The mantissa of `d` at `k` fraction digits: exact when `d` has no more than `k`, rounded otherwise. -/
+def fixedMant (d : Dec) (k : Nat) : Nat :=
+  if d.scale ≤ k then d.mant * 10 ^ (k - d.scale) else roundHalfEven d.mant (10 ^ (d.scale - k))
+
+theorem round_core (n p P m : Nat) (hp : 0 < p)
+    (hm : (m = n / p ∧ 2 * (n % p) ≤ p) ∨ (m = n / p + 1 ∧ p ≤ 2 * (n % p))) :
+    2 * (m * (p * P)) ≤ 2 * (n * P) + p * P ∧ 2 * (n * P) ≤ 2 * (m * (p * P)) + p * P := by
+  have hdm := Nat.div_add_mod n p
+  have hr : n % p < p := Nat.mod_lt _ hp
+  generalize n / p = q at *
+  generalize n % p = r at *
+  have hn : n * P = q * (p * P) + r * P := by
+    rw [← hdm, Nat.add_mul, Nat.mul_comm p q, Nat.mul_assoc]
+  have hY : r * P ≤ p * P := Nat.mul_le_mul_right P (Nat.le_of_lt hr)
+  rcases hm with ⟨rfl, h⟩ | ⟨rfl, h⟩
+  · have h2 : 2 * (r * P) ≤ p * P := by rw [← Nat.mul_assoc]; exact Nat.mul_le_mul_right P h
+    rw [hn]
+    generalize m * (p * P) = X at *
+    generalize r * P = Y at *
+    generalize p * P = A at *
+    omega
+  · have h2 : p * P ≤ 2 * (r * P) := by rw [← Nat.mul_assoc]; exact Nat.mul_le_mul_right P h
+    rw [hn, Nat.add_mul, Nat.one_mul]
+    generalize q * (p * P) = X at *
+    generalize r * P = Y at *
+    generalize p * P = A at *
+    omega
+
+theorem roundHalfEven_cases (n p : Nat) :
+    (roundHalfEven n p = n / p ∧ 2 * (n % p) ≤ p) ∨ (roundHalfEven n p = n / p + 1 ∧ p ≤ 2 * (n % p)) := by
+  unfold roundHalfEven
+  split
+  · right; exact ⟨rfl, by omega⟩
+  · split
+    · left; exact ⟨rfl, by omega⟩
+    · split
+      · left; exact ⟨rfl, by omega⟩
+      · right; exact ⟨rfl, by omega⟩
+
+theorem roundHalfUp_cases (n p : Nat) :
+    (roundHalfUp n p = n / p ∧ 2 * (n % p) ≤ p) ∨ (roundHalfUp n p = n / p + 1 ∧ p ≤ 2 * (n % p)) := by
+  unfold roundHalfUp
+  split
+  · right; exact ⟨rfl, by omega⟩
+  · left; exact ⟨rfl, by omega⟩
+
+theorem pow10_pos (k : Nat) : 0 < 10 ^ k := Nat.pow_pos (by decide)
+
+/-- **using_numeric_rounding** (fields with a fraction): the mantissa shown, `fixedMant d k / 10^k`, is the value
+`d.mant / 10^d.scale` rounded to `k` fraction digits to the nearest — the error is at most half a unit of the
+last shown digit (both inequalities, cross-multiplied) — exactly the value when it has no more than `k`
+fraction digits, and on a tie the even neighbour. -/
+theorem using_numeric_rounding (d : Dec) (k : Nat) :
+    (2 * (fixedMant d k * 10 ^ d.scale) ≤ 2 * (d.mant * 10 ^ k) + 10 ^ d.scale
+      ∧ 2 * (d.mant * 10 ^ k) ≤ 2 * (fixedMant d k * 10 ^ d.scale) + 10 ^ d.scale)
+    ∧ (d.scale ≤ k → fixedMant d k * 10 ^ d.scale = d.mant * 10 ^ k)
+    ∧ (k < d.scale → 2 * (d.mant % 10 ^ (d.scale - k)) = 10 ^ (d.scale - k) → fixedMant d k % 2 = 0) := by
+  have hexact : d.scale ≤ k → fixedMant d k * 10 ^ d.scale = d.mant * 10 ^ k := by
+    intro hs
+    simp only [fixedMant, hs, if_true]
+    rw [Nat.mul_assoc, ← Nat.pow_add, Nat.sub_add_cancel hs]
+  refine ⟨?_, hexact, ?_⟩
+  · by_cases hs : d.scale ≤ k
+    · rw [hexact hs]; exact ⟨Nat.le_add_right _ _, Nat.le_add_right _ _⟩
+    · have hS : 10 ^ d.scale = 10 ^ (d.scale - k) * 10 ^ k := by
+        rw [← Nat.pow_add, Nat.sub_add_cancel (by omega)]
+      simp only [fixedMant, hs, if_false]
+      rw [hS]
+      exact round_core d.mant (10 ^ (d.scale - k)) (10 ^ k) _ (pow10_pos _) (roundHalfEven_cases _ _)
+  · intro hk htie
+    have hs : ¬ d.scale ≤ k := by omega
+    simp only [fixedMant, hs, if_false, roundHalfEven]
+    have h1 : ¬ 2 * (d.mant % 10 ^ (d.scale - k)) > 10 ^ (d.scale - k) := by omega
+    have h2 : ¬ 2 * (d.mant % 10 ^ (d.scale - k)) < 10 ^ (d.scale - k) := by omega
+    simp only [h1, h2, if_false]
+    split <;> omega
+
+/-- What `format!("{:.k}")` yields in the model: sign, the integer digits and exactly `k` fraction digits of the
+rounded mantissa. -/
+theorem fixedText_eq (d : Dec) (k : Nat) :
+    d.fixedText k = (if d.neg then ['-'] else []) ++ natDigits (fixedMant d k / 10 ^ k)
+      ++ '.' :: fixedDigits k (fixedMant d k % 10 ^ k) := by
+  cases hn : d.neg <;> simp [Dec.fixedText, fixedMant, roundHalfEven, hn]
+
+/-- **using_numeric_rounding** (fields without a fraction): the number shown is the value rounded to the nearest
+whole number, ties away from zero; a negative value that rounds to zero is shown without sign. -/
+theorem using_numeric_rounding_whole (d : Dec) :
+    d.roundText = (if d.neg && roundHalfUp d.mant (10 ^ d.scale) != 0 then ['-'] else [])
+        ++ natDigits (roundHalfUp d.mant (10 ^ d.scale))
+    ∧ (2 * (roundHalfUp d.mant (10 ^ d.scale) * 10 ^ d.scale) ≤ 2 * d.mant + 10 ^ d.scale
+        ∧ 2 * d.mant ≤ 2 * (roundHalfUp d.mant (10 ^ d.scale) * 10 ^ d.scale) + 10 ^ d.scale)
+    ∧ (2 * (d.mant % 10 ^ d.scale) = 10 ^ d.scale →
+        roundHalfUp d.mant (10 ^ d.scale) = d.mant / 10 ^ d.scale + 1) := by
+  refine ⟨?_, ?_, ?_⟩
+  · cases hn : d.neg with
+    | false => simp [Dec.roundText, roundHalfUp, hn]
+    | true =>
+      simp only [Dec.roundText, roundHalfUp, hn, Bool.true_and, ge_iff_le]
+      split <;> simp_all <;> split <;> simp
+  · have := round_core d.mant (10 ^ d.scale) 1 _ (pow10_pos _) (roundHalfUp_cases d.mant (10 ^ d.scale))
+    simpa using this
+  · intro h
+    have : 2 * (d.mant % 10 ^ d.scale) ≥ 10 ^ d.scale := by omega
+    simp [roundHalfUp, this]
+
+example : fixedMant ⟨false, 3147, 3⟩ 2 = 315 ∧ fixedMant ⟨false, 125, 3⟩ 2 = 12 ∧ fixedMant ⟨true, 5, 1⟩ 3 = 500 := by
+  decide
+example : roundHalfUp 25 10 = 3 ∧ roundHalfUp 24 10 = 2 := by decide
+
+theorem digit_facts2 : ∀ k, k < 10 →
+    (Char.ofNat (48 + k) != '.') = true ∧ isPad (Char.ofNat (48 + k)) = false := by decide
+
+theorem natDigits_all (P : Char → Prop) (h : ∀ d, P (digitChar d)) (n : Nat) : ∀ c ∈ natDigits n, P c := by
+  induction n using Nat.strongRecOn with
+  | _ n ih =>
+    by_cases hn : n < 10
+    · rw [natDigits_small n hn]; intro c hc; simp at hc; rw [hc]; exact h n
+    · rw [natDigits_big n (by omega)]
+      intro c hc
+      rw [List.mem_append] at hc
+      cases hc with
+      | inl h1 => exact ih (n / 10) (by omega) c h1
+      | inr h2 => simp at h2; rw [h2]; exact h n
+
+theorem fixedDigits_all (P : Char → Prop) (h : ∀ d, P (digitChar d)) (k n : Nat) :
+    ∀ c ∈ fixedDigits k n, P c := by
+  induction k generalizing n with
+  | zero => simp [fixedDigits]
+  | succ k ih =>
+    intro c hc
+    simp only [fixedDigits, List.mem_append, List.mem_singleton] at hc
+    cases hc with
+    | inl h1 => exact ih _ c h1
+    | inr h2 => rw [h2]; exact h n
+
+theorem digitChar_notDot (d : Nat) : (digitChar d != '.') = true :=
+  (digit_facts2 (d % 10) (Nat.mod_lt _ (by decide))).1
+
+theorem digitChar_notPad (d : Nat) : isPad (digitChar d) = false :=
+  (digit_facts2 (d % 10) (Nat.mod_lt _ (by decide))).2
+
+/-- **using_numeric_digits, fields with a fraction** (`#…#.#…#` on a SINGLE / DOUBLE value): the field is the
+integer picture filled with the sign and integer digits of the rounded value, the point, and exactly the `k`
+fraction digits of the rounded value; apart from padding it shows exactly those characters. -/
+theorem using_numeric_fraction_digits (ifmt ffmt : List Char) (d : Dec) (hk : 0 < ffmt.length) :
+    let k := ffmt.length
+    let ip := (if d.neg then ['-'] else []) ++ natDigits (fixedMant d k / 10 ^ k)
+    let fp := fixedDigits k (fixedMant d k % 10 ^ k)
+    fmtWithFractionalPart ifmt ffmt (.single d) = .ok (fmtIntegerPart ifmt ip ++ '.' :: fp)
+    ∧ fmtWithFractionalPart ifmt ffmt (.double d) = .ok (fmtIntegerPart ifmt ip ++ '.' :: fp)
+    ∧ (fmtIntegerPart ifmt ip ++ '.' :: fp).filter (fun c => !isPad c) = ip ++ '.' :: fp
+    ∧ fp.length = k := by
+  intro k ip fp
+  have hipdot : ∀ c ∈ ip, (c != '.') = true := by
+    intro c hc
+    simp only [ip, List.mem_append] at hc
+    rcases hc with h | h
+    · cases hn : d.neg <;> simp [hn] at h
+      rw [h]; decide
+    · exact natDigits_all (fun c => (c != '.') = true) digitChar_notDot _ c h
+  have hippad : ∀ c ∈ ip, isPad c = false := by
+    intro c hc
+    simp only [ip, List.mem_append] at hc
+    rcases hc with h | h
+    · cases hn : d.neg <;> simp [hn] at h
+      rw [h]; decide
+    · exact natDigits_all (fun c => isPad c = false) digitChar_notPad _ c h
+  have hfpdot : ∀ c ∈ fp, (c != '.') = true := fixedDigits_all (fun c => (c != '.') = true) digitChar_notDot _ _
+  have hfppad : ∀ c ∈ fp, isPad c = false := fixedDigits_all (fun c => isPad c = false) digitChar_notPad _ _
+  have hfplen : fp.length = k := fixedDigits_length _ _
+  have htext : d.fixedText k = ip ++ '.' :: fp := by rw [fixedText_eq]
+  have htw : (ip ++ '.' :: fp).takeWhile (fun c => c != '.') = ip := by
+    rw [List.takeWhile_append_of_pos hipdot]; simp
+  have hdw : (ip ++ '.' :: fp).dropWhile (fun c => c != '.') = '.' :: fp := by
+    rw [List.dropWhile_append_of_pos hipdot]; simp
+  have hfrac : ((fp.takeWhile (fun c => c != '.')) ++ List.replicate k '0').take k = fp := by
+    rw [takeWhile_self _ fp hfpdot]
+    exact List.take_left' hfplen
+  have hfield : ∀ v, formatVariant v k = .ok (d.fixedText k) →
+      fmtWithFractionalPart ifmt ffmt v = .ok (fmtIntegerPart ifmt ip ++ '.' :: fp) := by
+    intro v hv
+    show fmtWithFractionalPart ifmt ffmt v = _
+    unfold fmtWithFractionalPart
+    rw [show ffmt.length = k from rfl, hv, htext]
+    simp only [htw, hdw, List.drop_one, List.tail_cons, hfrac]
+  refine ⟨hfield _ ?_, hfield _ ?_, ?_, hfplen⟩
+  · simp [formatVariant, k, hk]
+  · simp [formatVariant, k, hk]
+  · rw [List.filter_append, using_numeric_digits ifmt ip hippad]
+    have hdot : isPad '.' = false := by decide
+    rw [List.filter_cons]
+    simp [hdot, filter_notPad_self fp hfppad]
+
+example : (fmtWithFractionalPart ['#', '#', '#'] ['#', '#'] (.double ⟨true, 3147, 3⟩)).toOption
+    = some [' ', '-', '3', '.', '1', '5'] := by decide
+
 end RbThm.C16
